@@ -9,11 +9,11 @@ import sys
 import tempfile
 
 V = os.path.dirname(os.path.dirname(os.path.abspath(__file__)))
-AREA = {"B1": ["C04", "C05", "C07", "C14", "C20", "C11", "C01"],
-        "B2": ["C13", "C08", "C09", "C01", "C15", "C14", "C16", "C17", "C02", "C10"],
-        "B3": ["C02", "C03", "C06", "C10", "C11", "C12", "C01", "C09", "C15", "C20"],
-        "B4": ["C16", "C17", "C09", "C12"],
-        "B5": ["C07", "C08", "C18", "C19"]}
+AREA = {"B1": ["C04", "C05", "C14", "C20"],
+        "B2": ["C13", "C08", "C09", "C16", "C01"],
+        "B3": ["C03", "C06", "C10", "C12", "C02"],
+        "B4": ["C16", "C17"],
+        "B5": ["C07", "C18", "C19"]}
 only = sys.argv[1:]
 SCR = tempfile.mkdtemp(prefix="benignrepo-", dir="/var/tmp")
 R = os.path.join(SCR, "repo")
